@@ -374,6 +374,21 @@ impl Scenario for AclUnderFailSafe {
             };
             if ended_cleanly {
                 out.count(["c08_end_complete", "c08_end_timeout", "c08_end_forced", "c08_end_restart"][ending as usize], 1);
+                // The picture right after the fail-safe ended (before the later restart) ...
+                let t_after = r.iter().filter(|(n, _, _)| *n == "read_onoff").nth(1).map(|(_, _, t)| *t);
+                if let Some(t_after) = t_after {
+                    if t_after < late_restart {
+                        if let Some((_, acl, _)) = acl_series.iter().filter(|(t, _, _)| *t <= t_after).last() {
+                            if committed && !has_extra(acl) {
+                                out.violate("C08-committed-change-lost", describe());
+                            }
+                            if !committed && (has_extra(acl) || acl.len() != 1) {
+                                out.violate("C08-change-survives-failsafe-end", describe());
+                            }
+                        }
+                    }
+                }
+                // ... and after it
                 match &final_acl {
                     Some(acl) => {
                         if committed && !has_extra(acl) {
